@@ -61,9 +61,10 @@ def Tables.tagOfText (T : Tables) (s : List Nat) : Int :=
     FALSE for others — east of Greenwich the last hours of year 9999 are formatted with the five-digit year
     10000, which `Parse` rejects, and for historical instants a location's offset has seconds that the
     RFC 3339 offset drops (`Props/C04.lean`: `zone_east_not_lawful`, `zone_lmt_not_lawful`).  The writers
-    in /repo format in the LOCATION OF THE VALUE they are given, which for a value decoded from binary is
-    `time.Local`: the model is the library only when that is UTC (finding C04 `date-zone`; the proposed
-    repair formats in UTC, which makes the hypothesis true on every machine). -/
+    in /repo format in UTC since 678b3ea (`date.UTC().Format`, year test after `.UTC()`), which makes the
+    hypothesis true on every machine.  Before that commit they formatted in the LOCATION OF THE VALUE they
+    were given, which for a value decoded from binary is `time.Local`: the model was the library only when
+    that was UTC (finding `xml:zone:decode-error`, fixed). -/
 structure Rfc3339 where
   format  : Int → Str
   parse   : Str → Option Int
